@@ -16,7 +16,7 @@ Theorem C01_join_polyline_pixels_draw : forall pts tr w, poly_box_ok pts w ->
   poly_thick_points pts tr w = option_map (flat_map (rect_points_tr tr)) (poly_thick_rects pts w).
 Proof. exact poly_pixels_draw_ok. Qed.
 
-(* ... in particular for all vertices within +-V with V + 6 w + 8 <= 1280 (input-only form) *)
+(* ... in particular for all vertices within +-V with V + 6 w + 8 <= 8191 (input-only form) *)
 Theorem C01_join_polyline_pixels_draw_range : forall V pts tr w, range_ok V w -> Forall (within V) pts ->
   poly_thick_points pts tr w = option_map (flat_map (rect_points_tr tr)) (poly_thick_rects pts w).
 Proof. intros V pts tr w R F. apply poly_pixels_draw_ok. exact (poly_box_ok_range V w pts R F). Qed.
@@ -43,7 +43,7 @@ Theorem C01_join_triangle_pixels_draw : forall t w al fill segs rs, tri_big t ->
   exists px dr, jt_pixels t w al fill = Some px /\ jt_draw t w al fill = Some dr /\ flat_map rect_writes dr = px.
 Proof. exact jt_pixels_draw. Qed.
 
-(* input-only form of the range hypotheses: vertices within +-V, V + 6 w + 8 <= 1280 *)
+(* input-only form of the range hypotheses: vertices within +-V, V + 6 w + 8 <= 8191 *)
 Theorem C01_join_triangle_pixels_draw_range : forall V t w al fill rs, range_ok V w -> tri_within V t ->
   jt_rows t w al (match fill with Some _ => true | None => false end) = Some rs -> jt_fused rs = true ->
   exists px dr, jt_pixels t w al fill = Some px /\ jt_draw t w al fill = Some dr /\ flat_map rect_writes dr = px.
